@@ -67,6 +67,11 @@ def _table_expr(node):
         return all(_table_expr(e) for e in node.elts)
     if isinstance(node, ast.Constant):
         return True
+    if isinstance(node, ast.Call) and isinstance(node.func, ast.Name) and node.func.id.startswith('_') and \
+            not any(k.arg is None for k in node.keywords):
+        # a row built by a private helper of the module from literal entries
+        return all(_table_expr(a.value if isinstance(a, ast.Starred) else a) for a in node.args) and \
+            all(_table_expr(k.value) for k in node.keywords)
     return _constant_expr(node)
 
 
@@ -414,6 +419,36 @@ class ExprMixin:
 
     def _comp(self, node, st, elt_nodes, kind):
         # a single generator over a sequence whose items are all known is unrolled
+        if len(node.generators) == 1 and (node.generators[0].ifs or kind == 'dictcomp'):
+            # over a known sequence with filters that fold for every item: the comprehension is its value
+            gen = node.generators[0]
+            it = self.eval(gen.iter, st)
+            if isinstance(it, Tup) and len(it) <= 16:
+                out, saved, decided = [], dict(st.env), True
+                for item in it.items:
+                    try:
+                        self.assign_target_expr(gen.target, item, st, gen)
+                    except Exception:
+                        decided = False
+                        break
+                    keep = True
+                    for cond in gen.ifs:
+                        t = truth(self.eval(cond, st))
+                        if t is None:
+                            decided = False
+                            break
+                        if not t:
+                            keep = False
+                            break
+                    if not decided:
+                        break
+                    if keep:
+                        vals = [self.eval(e, st) for e in elt_nodes]
+                        out.append(vals[0] if kind == 'listcomp' else Tup(vals))
+                st.env.clear()
+                st.env.update(saved)
+                if decided:
+                    return Tup(out, 'list') if kind == 'listcomp' else app('dict', *out)
         if len(node.generators) == 1 and not node.generators[0].ifs and kind == 'listcomp':
             gen = node.generators[0]
             it = self.eval(gen.iter, st)
